@@ -19,7 +19,9 @@ SPANS_FIXED = False      # True once lexer.rs adds the header offset to the span
 K_SPANS = "spans of a lex spec with a %grmtools header are relative to the text after the header"
 K_PREFIX = "lex escapes are not rewritten in a rule that has a start-state prefix"
 K_DANGLING = "unescape drops the end of a regex that ends in a lone backslash"
-KNOWN_KEYS = [K_SPANS, K_PREFIX, K_DANGLING]
+K_TARGET = "name_span of a rule with a target state is computed as if the name followed the space directly"
+K_BLANKS = "two blanks between start-state names in a declaration are rejected"
+KNOWN_KEYS = [K_SPANS, K_PREFIX, K_DANGLING, K_TARGET, K_BLANKS]
 
 
 def hx(s):
@@ -154,23 +156,29 @@ def judge_oracle(ctx, rec, out):
     if gs != ws:
         devs.append(("start states differ", None, {"got": gs, "want": ws}))
     # spans index the text the user wrote
-    bad_abs, bad_rel = [], []
-    span_items = [("rule %d" % k, r["span"], r["name"] or "") for k, r in enumerate(rules)]
-    span_items += [("state %d" % s["id"], s["span"], s["name"] if s["id"] != 0 else "") for s in states]
-    for what, (s, e), name in span_items:
+    span_items = [("rule %d" % k, r["span"], r["name"] or "", r["target"] is not None) for k, r in enumerate(rules)]
+    span_items += [("state %d" % s["id"], s["span"], s["name"], False) for s in states]
+    by_class = {}
+    for what, (s, e), name, has_target in span_items:
         if what == "state 0":
-            # INITIAL is not written by the user: its span is the empty (0,0), not shifted by a fix either
+            # INITIAL is not written by the user: its span is the empty (0,0)
             if (s, e) != (0, 0):
-                bad_abs.append((what, (s, e), None, name))
+                by_class.setdefault(None, []).append((what, (s, e), None, name))
             continue
-        if bsel(src_b, s, e) != name:
-            bad_abs.append((what, (s, e), bsel(src_b, s, e), name))
-        if bsel(src_b, s + pos, e + pos) != name:
-            bad_rel.append((what, (s, e)))
-    if bad_abs:
-        key = K_SPANS if (pos > 0 and not bad_rel and not SPANS_FIXED) else None
+        got = bsel(src_b, s, e)
+        if got == name:
+            continue
+        rel = bsel(src_b, s + pos, e + pos)
+        if pos > 0 and rel == name and not SPANS_FIXED:
+            key = K_SPANS
+        elif has_target and name != "" and (e - s) == len(name.encode("utf-8")):
+            key = K_TARGET      # right length, wrong place: computed as if the name followed the space directly
+        else:
+            key = None
+        by_class.setdefault(key, []).append((what, (s, e), got, name))
+    for key, items in by_class.items():
         devs.append(("a span does not select the name it denotes in the source text", key,
-                     {"header_end": pos, "wrong": bad_abs[:4], "selects_correctly_when_offset_by_header_end": not bad_rel}))
+                     {"header_end": pos, "wrong (what, span, selected, expected)": items[:4]}))
     # regex equivalence
     if "RX" in sec:
         for item in sec["RX"].split()[1:]:
